@@ -61,7 +61,7 @@ m = {
         "guard": "cargo feature `verif` (cfg(feature = \"verif\"))",
         "enable": "checks copy /repo to a scratch directory, overlay kani/verif.rs + kani/verif/ as src/verif*, and run `cargo kani --features verif -Z stubbing`",
         "baseline_off_cmd": "cd /repo && cargo test --workspace --no-fail-fast --offline",
-        "source_commits": ["3170146", "81bc633"],
+        "source_commits": ["3170146", "81bc633", "83fcac2", "5cfdd8a"],
         "add_only": True,
     },
     "engines": [
